@@ -1,17 +1,19 @@
 /-
   Model of the gene ↔ area bookkeeping of `antismash/common/secmet/record.py`
-    Record.get_cds_features_within_location   (repaired: D4, D5, D6, D4b — see design/C08.md)
-    Record.add_cds_feature, Record._link_cds_to_parent (repaired: D41)
-    Record.add_protocluster / add_candidate_cluster / add_subregion / add_region (CDS linking)
-  and of `CDSCollection.add_cds`, `Protocluster.add_cds`, `Region.add_cds`,
+    Record.get_cds_features_within_location, Record.add_cds_feature (+ `_cds_by_name`, `_cds_by_location`,
+    `_cds_cache`), Record._link_cds_to_parent, Record.add_protocluster / add_candidate_cluster /
+    add_subregion / add_region (CDS linking), Record.clear_regions / clear_subregions /
+    clear_candidate_clusters / clear_protoclusters, Record.get_cds_features / get_cds_by_name /
+    get_cds_features_within_regions
+  and of `CDSCollection.add_cds` (section choice, children), `_CDSCache` / `_SectionedCDSCache` (the gene list,
+  the three section lists, their four dirty flags, `cds_children`), `Protocluster.add_cds`, `Region.add_cds`,
   `Feature.is_contained_by / overlaps_with / __lt__` (the latter three via the shared location model).
 
   Encoding.  A Python list slice `features[a:b]` is the list it denotes; a `while` loop that moves an
-  index over a list is the `takeWhile`/`dropWhile` it computes.  The per-object dictionaries
-  (`area._cdses`, `protocluster._definition_cdses`, `cds.region`) are flattened into relations keyed by
-  object id (`members`, `defs`, `regionOf`), in insertion order.  `bisect.bisect_left(a, x, lo)` is
-  modelled by its documented contract (the partition point of `· < x` in `a[lo:]`), not by its binary
-  search; the list is kept sorted (theorem `run_genes_sorted`), which is bisect's precondition.
+  index over a list is the `takeWhile`/`dropWhile` it computes.  The per-object dictionaries and caches
+  are flattened into relations keyed by object id (see `Rec`), in insertion order.  `bisect.bisect_left/right`
+  is modelled by its documented contract (the partition point), not by its binary search; the list is kept
+  sorted (theorem `genes_stay_sorted`), which is bisect's precondition.
   No imports outside ASV.Model (driver-linkable).
 -/
 import ASV.Model.LocOps
